@@ -305,6 +305,81 @@ def gen_witness_file(ctx):
     return core.write_if_changed(core.COQ / "C10" / "GenWitness.v", text)
 
 
+def multi_routine_histories(ctx):
+    """histories on files with 2-3 routines: [(skeletons, [(routine index, op or "ACCRoutine"), ...])].
+    A routine that may receive ACCRoutineTrans only receives ACCLoopTrans besides (an `acc routine` excuses orphaned
+    acc loops in ITS OWN routine only); the other routines receive any transformation."""
+    S = spec.S
+    L = lambda *b: ("L", tuple(b))   # noqa: E731
+    loop1 = (L(S),)
+    nest2 = (L(L(S)),)
+    acl = lambda path, **o: ("ACCLoop", ("node", path), dict(o, force=True))   # noqa: E731
+    out = []
+    # targeted: acc routine in one routine, orphaned acc loop in another one (all orders, 2 and 3 routines)
+    for sk in (loop1, nest2):
+        out.append(((sk, sk), [(0, "ACCRoutine"), (1, acl((0,)))]))
+        out.append(((sk, sk), [(1, acl((0,))), (0, "ACCRoutine")]))
+        out.append(((sk, sk), [(0, "ACCRoutine"), (0, acl((0,))), (1, acl((0,)))]))
+        out.append(((sk, sk, sk), [(2, "ACCRoutine"), (0, acl((0,))), (2, acl((0,)))]))
+        out.append(((sk, sk, sk), [(1, acl((0,))), (0, ("ACCParallel", ("range", (), 0, 1), {})), (2, "ACCRoutine")]))
+        out.append(((sk, sk), [(0, "ACCRoutine"), (0, acl((0,))), (1, acl((0,))), (1, ("ACCParallel", ("range", (), 0, 1), {}))]))
+        out.append(((sk, sk), [(0, "ACCRoutine"), (1, ("OMPDo", ("node", (0,)), {"force": True})),
+                               (1, ("OMPParallel", ("range", (), 0, 1), {}))]))
+    rng = ctx.rng("multi")
+    for _ in range(ctx.pick(25, 300)):
+        n = rng.choice([2, 2, 3])
+        roles = [rng.random() < 0.4 for _ in range(n)]          # True: acc-routine role
+        # acc-routine-role routines hold no RETURN / code block: ACCLoopTrans does not exclude them and an orphaned
+        # `acc loop` around a RETURN is a further defect (see NOTES.md) outside the modelled transformation set
+        plain = [loop1, nest2, (L(S), S), (L(L(S), S),)]
+        skels = tuple(rng.choice(plain if roles[k] else plain + [spec.gen_skeleton(rng, 2)]) for k in range(n))
+        cur = [tuple(sk) for sk in skels]
+        ops = []
+        for _ in range(rng.randint(2, ctx.pick(4, 6))):
+            r = rng.randrange(n)
+            if roles[r]:
+                if rng.random() < 0.45:
+                    ops.append((r, "ACCRoutine"))
+                else:
+                    loops = [p for p, t in spec.node_paths(skels[r]) if t[0] == "L"]
+                    if loops:
+                        ops.append((r, acl(rng.choice(loops))))
+            else:
+                ops.append((r, None))       # a random op chosen against the routine's current tree at run time
+        out.append((skels, ops))
+    return out
+
+
+def run_multi(ctx, rng, skels, ops):
+    """apply a multi-routine history; returns dict(trees, wv, text, log) or None after a crash"""
+    root, routines = impl.read_file(skels)
+    log = []
+    for r, op in ops:
+        if op == "ACCRoutine":
+            v, msg = impl.apply_routine_op(routines[r])
+            log.append({"routine": r + 1, "op": "ACCRoutineTrans", "verdict": v})
+        else:
+            if op is None:
+                try:
+                    op = spec.gen_op(rng, impl.serialise(routines[r]), rng.choice(spec.FAMILIES))
+                except impl.OutOfModel:
+                    return None
+            try:
+                v, msg = impl.apply_op(routines[r], op)
+            except impl.OutOfModel:
+                return None
+            log.append({"routine": r + 1, "op": op_json(op), "verdict": v})
+        if v == "crash":
+            return None
+    try:
+        trees = [impl.serialise(rt) for rt in routines]
+    except impl.OutOfModel:
+        return None
+    wv, text = impl.write(root)
+    return {"trees": trees, "wv": wv, "text": text, "log": log, "skeletons": skels,
+            "accepted": sum(1 for e in log if e["verdict"] == "ok")}
+
+
 # ------------------------------------------------------------------ the check
 def run(ctx):
     ctx.cov["rule"] = (
@@ -561,6 +636,47 @@ def run(ctx):
             ctx.sample({"skeleton": f["skeleton"], "ops": f["log"], "final_tree": f["tree"], "gfortran": f["gf"],
                         "wf": spec.wf_keys(f["tree"]), "cc": spec.cc_keys(f["tree"])})
             break
+
+    # ---- 5b. files with several routines: transformations across routines, property evaluated per routine
+    mrng = ctx.rng("multi-run")
+    multi = []
+    for skels, ops in multi_routine_histories(ctx):
+        res = run_multi(ctx, mrng, skels, ops)
+        ctx.hist("multi_routine_history", "crash/out-of-model" if res is None else ("written" if res["wv"] == "ok" else res["wv"]))
+        if res is not None:
+            multi.append(res)
+    gf_cache = {}
+    for m in multi:
+        if m["wv"] != "ok":
+            continue
+        # the file was written: the model's writer must accept every routine of it
+        for tr in m["trees"]:
+            finals.append({"tree": tr, "wv": "ok", "text": "", "msg": "", "source": "direct",
+                           "skeleton": None, "log": None, "accepted": 0, "multi": True})
+        if m["text"] not in gf_cache:
+            gf_cache[m["text"]] = impl.gfortran(m["text"], str(ctx.scratch / "multi"), "m%d" % len(gf_cache))
+        acc, msg = gf_cache[m["text"]]
+        wfk = sorted({k for tr in m["trees"] for k in spec.wf_keys(tr)})
+        cck = sorted({k for tr in m["trees"] for k in spec.cc_keys(tr)})
+        ctx.count(("multi", tuple(m["trees"])), m["accepted"] > 0)
+        ctx.hist("multi_routine_gfortran", "accepted" if acc else ("rejected" if acc is False else "not-run"))
+        fails = list(wfk)
+        if acc is False:
+            fails += cck if cck else ["gfortran/unmodelled/" + re.sub(r"[^A-Za-z]+", "-", msg)[:60]]
+        if acc and cck and not any(spec.acc_intervening(tr) for tr in m["trees"]):
+            spec_bad.append({"trees": m["trees"], "cc": cck, "text": m["text"]})
+        for key in fails:
+            ctx.hist("failing_key", key)
+            if unlisted >= 5:
+                break
+            replay = {"property": "C10", "routines_final_trees": m["trees"], "wf_violations": wfk,
+                      "compiler_rule_violations": cck, "gfortran_accepted": acc, "gfortran_message": msg,
+                      "written_code": m["text"], "skeletons": m["skeletons"], "source_fortran": impl.source_of_file(m["skeletons"]),
+                      "ops": m["log"],
+                      "how": "props/C10/impl.py: read_file(skeletons); per entry apply_op / apply_routine_op (ACCRoutineTrans) on "
+                             "routine sub<routine>; write(file); gfortran -fopenmp -fopenacc -S"}
+            if ctx.finding(key, "PSyclone writes a directive structure that violates %s (file with several routines)" % key, replay):
+                unlisted += 1
 
     # ---- 6. validation of the compiler specification (both streams)
     cc_incomplete = 0
